@@ -565,6 +565,9 @@ class ExcelCompiler:
                     else:
                         # trim this cell, now we will need only its value
                         needed_cells.add(child_address)
+                        if child_cell.formula and child_cell.value is None:
+                            # the cell was never calculated, do so before freezing
+                            self.evaluate(child_address)
                         child_cell.formula = None
                         self.log.debug(f'Trimming {child_address}')
 
